@@ -9,6 +9,7 @@ literals of 10^5 characters, 1000 parentheses, NULs, non-ASCII, missing final ne
 shipped schemas: no sanitizer report, no signal, bounded time, exit status 0 or small positive
 with a diagnostic; the nesting depth at which the tools stop vs the model."""
 import glob
+import json
 import os
 import re
 import shutil
@@ -393,6 +394,90 @@ def main(tier, seed):
                 res.violation("%s with functions nested %d deep: status %d, 'nested more than' %s; the model (MAX_SCOPE_DEPTH %d, margin %d) %s" % (
                     tool, d, rc, "printed" if msg else "not printed", maxd, margin, "stops" if model_stops else "goes on"),
                     {"theorem_or_correspondence": "correspondence C06: coq/ExpSafe.v vs expparse PUSH_SCOPE"}, found_input=False)
+    # ---- exppp's expression buffer: coq/ExprBuf.v (extracted) against EXPRlength() on every expression of the valid schemas ----
+    elen = {"schemas": 0, "expressions": 0, "composite": 0, "longest": 0, "kinds": {}}
+    try:
+        hexe = build_harness(bdir, "h_exprlen", cfg="asan", libs=["exppp", "express"], lang="c",
+                             extra_src=[os.path.join(REPO, "src", "express", "fedex.c")],
+                             extra_flags=["-std=gnu11", "-I" + os.path.join(REPO, "src", "express"), "-I" + os.path.join(REPO, "include", "exppp")])
+        extract_and_build_drivers()
+    except BuildError as e:
+        hexe = None
+        res.violation("the expression-length harness does not build: %s" % str(e)[-300:],
+                      {"theorem_or_correspondence": "correspondence C06: coq/ExprBuf.v vs exppp EXPRlength", "error": str(e)[-2000:]}, found_input=False)
+    if hexe:
+        texts = [("exprlen_stress", open(os.path.join(VERIF, "schemas", "c06_exprlen.exp")).read())]
+        texts += [(name, text) for (cls, name, text, exp) in cases if exp == ("valid", 0) and len(text) < 3000000]
+
+        def run_len(item):
+            name, text = item
+            wd = os.path.join(wroot, "len_%s" % re.sub(r"\W", "_", name)[:60])
+            os.makedirs(wd, exist_ok=True)
+            f = os.path.join(wd, "in.exp")
+            open(f, "w", encoding="latin-1").write(text)
+            rc, so, se = sh([hexe, f], cwd=wd, timeout=600, cpu=120,
+                            env={"ASAN_OPTIONS": "detect_leaks=0:abort_on_error=0:exitcode=99", "UBSAN_OPTIONS": "print_stacktrace=1:halt_on_error=1:exitcode=98"})
+            shutil.rmtree(wd, ignore_errors=True)
+            return name, text, rc, so, se
+        with ThreadPoolExecutor(max_workers=14) as ex:
+            lens = list(ex.map(run_len, texts))
+        drv = os.path.join(VERIF, "ocaml", "bin", "drv_elen")
+        for (name, text, rc, so, se) in lens:
+            san = re.search(r"ERROR: AddressSanitizer: ([\w-]+)|runtime error: ([^\n]{0,80})", se + so)
+            frame = re.search(r"#\d+ 0x[0-9a-f]+ in (\w+) (" + re.escape(REPO) + r"/[^\s:]+:\d+)", se + so)
+            if san:
+                pth = save("c06-exprlen-%s.exp" % re.sub(r"\W", "_", name)[:50], text)
+                oracle_fail += 1
+                res.violation("EXPRlength() on an expression of %s: sanitizer report %s%s" % (name, san.group(1) or san.group(2),
+                              (" in %s %s" % (frame.group(1), frame.group(2))) if frame else ""),
+                              {"input_file": pth, "replay": "%s %s" % (hexe, pth)})
+                continue
+            if rc != 0 or "DONE" not in so:
+                if "Errors in input" in se + so or rc in (1, 2):
+                    continue      # a schema the front end rejects has no expressions to measure (judged above)
+                pth = save("c06-exprlen-%s.exp" % re.sub(r"\W", "_", name)[:50], text)
+                oracle_fail += 1
+                res.violation("the expression-length harness dies on %s (status %d)" % (name, rc), {"input_file": pth, "replay": "%s %s" % (hexe, pth)})
+                continue
+            lines = [l for l in so.split("\n") if l.startswith("E ")]
+            rc2, mo, me = sh([drv], input=("\n".join(lines) + "\n").encode(), timeout=600)
+            mlines = [l for l in mo.split("\n") if l.startswith("E ")]
+            elen["schemas"] += 1
+            if rc2 != 0 or len(mlines) != len(lines):
+                disagreements += 1
+                res.violation("drv_elen could not evaluate the model on the expressions of %s: %s" % (name, (me or mo)[-200:]),
+                              {"theorem_or_correspondence": "correspondence C06: coq/ExprBuf.v vs exppp EXPRlength"}, found_input=False)
+                continue
+            for (hl, ml) in zip(lines, mlines):
+                w = ml.split()
+                shape_ = hl.split(" ", 2)[2]
+                elen["expressions"] += 1
+                k = shape_[:1]
+                elen["kinds"][k] = elen["kinds"].get(k, 0) + 1
+                if k not in "NSBU":
+                    elen["composite"] += 1
+                if len(w) != 7 or w[2] == "?":
+                    disagreements += 1
+                    res.violation("shape not understood by the model: %s (%s)" % (shape_[:120], name),
+                                  {"theorem_or_correspondence": "correspondence C06: coq/ExprBuf.v vs exppp EXPRlength"}, found_input=False)
+                    break
+                actual, written, bound, wf, bsize, stored = [int(x) for x in w[1:]]
+                elen["longest"] = max(elen["longest"], actual)
+                if actual + 1 > bsize:
+                    pth = save("c06-exprlen-%s.exp" % re.sub(r"\W", "_", name)[:50], text)
+                    oracle_fail += 1
+                    res.violation("EXPRlength() stores %d bytes for the expression %s of %s in a buffer of %d" % (actual + 1, shape_[:120], name, bsize),
+                                  {"input_file": pth, "replay": "%s %s" % (hexe, pth), "expression": shape_})
+                    break
+                if actual != written or wf != 1 or stored > bsize:
+                    disagreements += 1
+                    pth = save("c06-exprlen-%s.exp" % re.sub(r"\W", "_", name)[:50], text)
+                    res.violation("EXPRstring() writes %d characters for the expression %s of %s, the model %d (literal lengths within the formats: %s; "
+                                  "model: %d bytes stored, buffer of %d)" % (actual, shape_[:120], name, written, "yes" if wf else "no", stored, bsize),
+                                  {"theorem_or_correspondence": "correspondence C06: coq/ExprBuf.v vs exppp EXPRlength", "input_file": pth,
+                                   "replay": "%s %s | %s" % (hexe, pth, drv)}, found_input=False)
+                    break
+        evals += elen["expressions"]
     shutil.rmtree(wroot, ignore_errors=True)
     if not pr["ok"]:
         res.violation("Properties_C06.v no longer checks (%s)" % ", ".join(pr["failed"] or ["see log"]),
@@ -409,6 +494,9 @@ def main(tier, seed):
         "rejected_runs": rejected,
         "traces_validated_against_impl": evals,
         "correspondence_disagreements": disagreements,
+        "expression_buffer": "coq/ExprBuf.v (extracted) against exppp's EXPRlength() under ASan: %d expressions (%d composite; by kind %s) of %d valid schemas, "
+                             "longest text %d characters; compared: characters written = model, literal lengths within their formats, bytes stored <= buffer" % (
+                                 elen["expressions"], elen["composite"], json.dumps(elen["kinds"], sort_keys=True), elen["schemas"], elen["longest"]),
         "oracle_failures": oracle_fail,
         "unproved_clauses": ["memory safety outside the scope stack and the tail-remark buffer (sanitizer runs only)", "termination (time limit only)"],
     })
